@@ -18,15 +18,13 @@ theorem rinv_run_la2 {σ : St} (t inp : Nat) (I : RInv σ)
   · simp only [stepRun, hpc, stepRun.stepLa2]; repeat' split
     all_goals simp [St.goto, St.gotoF, St.flush, St.setTh, St.setHd, upd, PC.claim]
 
-theorem rinv_run_is1 {σ : St} (t inp : Nat) (p : Nat) (I : RInv σ)
-    (hpc : (σ.th t).pc = .is1 p) : RInv (stepRun σ t inp).2 := by
-  have L := I.loc t
-  simp only [Loc, hpc] at L
+theorem rinv_run_is1 {σ : St} (t inp : Nat) (I : RInv σ)
+    (hpc : (σ.th t).pc = .is1) : RInv (stepRun σ t inp).2 := by
   apply rinv_run_same t inp I (by rw [hpc]; rfl) (by rw [hpc]; rfl)
   · run_unfold hpc
-    simp [Loc, St.goto, St.flush, St.setTh, upd]; exact L
+    all_goals simp [Loc, St.goto, St.flush, St.setTh, upd]
   · run_unfold hpc
-    simp [St.goto, St.flush, St.setTh, upd, PC.claim]
+    all_goals simp [St.goto, St.flush, St.setTh, upd, PC.claim]
 
 theorem rinv_run_r1 {σ : St} (t inp : Nat) (p : Nat) (sg : Bool) (I : RInv σ)
     (hpc : (σ.th t).pc = .r1 p sg) : RInv (stepRun σ t inp).2 := by
